@@ -78,7 +78,12 @@ def classify_line(line):
     if not sl:
         return None
     tag = sl[0] if sl[0] in KNOWN else 'UNKNOWN'
-    return [tag] + [classify_field(f) for f in sl[1:]]
+    out = [tag]
+    for k, f in enumerate(sl[1:]):
+        c = dict(classify_field(f))
+        c['w'] = sl[1:].index(f) + 1          # equal words get equal numbers
+        out.append(c)
+    return out
 
 
 def load_kind(text, mf=None):
@@ -166,7 +171,7 @@ def near_valid_records(args):
     for _ in range(n):
         b = rng.choice(bases)
         k = rng.randrange(len(b) + 1)
-        how = rng.choice(['ins', 'del', 'rep', 'dup_field', 'drop_field', 'twolines', 'prefix'])
+        how = rng.choice(['ins', 'del', 'rep', 'dup_field', 'drop_field', 'twolines', 'prefix', 'dup_name'])
         if how == 'prefix':
             # something in front of an otherwise valid line (dash-escape, quote, comment marks)
             t = rng.choice(['- ', '- ', '-- ', '+ ', '> ', '# ', '- - ', '-\t']) + b
@@ -176,6 +181,13 @@ def near_valid_records(args):
             t = b[:k] + b[k + 1:]
         elif how == 'rep' and k < len(b):
             t = b[:k] + rng.choice(alphabet) + b[k + 1:]
+        elif how == 'dup_name' and len(b.split(' ')) >= 5 and (len(b.split(' ')) - 3) % 2 == 0:
+            # a checksum name listed twice (same or another value; before or after the original pair)
+            sl = b.split(' ')
+            j = rng.randrange(3, len(sl), 2)
+            pair = [sl[j], rng.choice([sl[j + 1], sl[j + 1][::-1], '00' * (len(sl[j + 1]) // 2)])]
+            at = rng.randrange(3, len(sl) + 1, 2)
+            t = ' '.join(sl[:at] + pair + sl[at:])
         elif how == 'dup_field':
             sl = b.split(' ')
             j = rng.randrange(len(sl))
